@@ -3,6 +3,9 @@
 open Common
 exception Stop of string
 let unres = function Ok v -> v | Exit -> raise (Stop "EXIT") | OOB -> raise (Stop "OOB") | Fuel -> raise (Stop "FUEL")
+(* g++ -O1 expands pow(x, 2.0) to x*x (no libm call; checked on the compiled library), pow(x, 3.0) calls libm:
+   the float instance of [npowi _ 2] follows the compiled code so that the comparison stays bit-exact *)
+let fops = { fops with npowi = (fun x k -> if int_of_z k = 2 then x *. x else fops.npowi x k) }
 let scaled dim l = if dim > 0.0 then List.map (fun v -> v *. dim) l else l
 
 let queries1 r o xs =
@@ -19,13 +22,22 @@ let queries1 r o xs =
           let x = if k = m then x1 else x0 +. (x1 -. x0) *. float_of_int k /. float_of_int m in
           put_f (unres (interpolate fops o x))
         done
+    | "K" -> let x = num r in
+        let pts = [Float.pred x; x; Float.succ x] in
+        List.iter (fun p -> put_f (unres (interpolate fops o p))) pts;
+        List.iter (fun p -> put_f (unres (derivative fops o p (z_of_int 1)))) pts
+    | "F" -> let x = num r in let d = num r in
+        let pts = [x -. d; x; x +. d] in
+        for k = 0 to 2 do List.iter (fun p -> put_f (unres (derivative fops o p (z_of_int k)))) pts done;
+        put_f (unres (derivative fops o x (z_of_int 3)));
+        put_f (unres (derivative fops o x (z_of_int 4)))
     | q -> failwith ("unknown query " ^ q)
   done
 
 let handler r =
   try
     match word r with
-    | "t1" ->
+    | "t1" | "h1" ->
         let xd = num r in let fd = num r in let xs = list r in let ys = list r in
         let o = unres (construct fops xs ys xd fd) in
         queries1 r o (scaled xd xs)
